@@ -162,6 +162,9 @@ func ext۰reflect۰SliceOf(fr *frame, args []value) value {
 
 func ext۰reflect۰TypeOf(fr *frame, args []value) value {
 	// Signature: func (t reflect.rtype) Type
+	if args[0].(iface).t == nil {
+		return iface{} // reflect.TypeOf(nil) == nil
+	}
 	return makeReflectType(rtype{args[0].(iface).t})
 }
 
@@ -178,6 +181,9 @@ func ext۰reflect۰Zero(fr *frame, args []value) value {
 }
 
 func reflectKind(t types.Type) reflect.Kind {
+	if t == nil {
+		return reflect.Invalid // the zero Value
+	}
 	switch t := t.(type) {
 	case *types.Named, *types.Alias:
 		return reflectKind(t.Underlying())
@@ -247,11 +253,30 @@ func ext۰reflect۰Value۰Kind(fr *frame, args []value) value {
 
 func ext۰reflect۰Value۰String(fr *frame, args []value) value {
 	// Signature: func (reflect.Value) string
-	return toString(rV2V(args[0]))
+	t := rV2T(args[0]).t
+	if t == nil {
+		return "<invalid Value>"
+	}
+	if reflectKind(t) == reflect.String {
+		return rV2V(args[0]) // possibly symbolic: keep it
+	}
+	return "<" + t.String() + " Value>"
+}
+
+// reflectValueError is what the real package panics with (*reflect.ValueError).
+func reflectValueError(method string, k reflect.Kind) targetPanic {
+	msg := "reflect: call of " + method + " on " + k.String() + " Value"
+	if k == reflect.Invalid {
+		msg = "reflect: call of " + method + " on zero Value"
+	}
+	return targetPanic{iface{errorType, msg}}
 }
 
 func ext۰reflect۰Value۰Type(fr *frame, args []value) value {
 	// Signature: func (reflect.Value) reflect.Type
+	if rV2T(args[0]).t == nil {
+		panic(reflectValueError("reflect.Value.Type", reflect.Invalid))
+	}
 	return makeReflectType(rV2T(args[0]))
 }
 
@@ -334,11 +359,6 @@ func ext۰reflect۰Value۰Index(fr *frame, args []value) value {
 	default:
 		panic(fmt.Sprintf("reflect.(Value).Index(%T)", v))
 	}
-}
-
-func ext۰reflect۰Value۰Bool(fr *frame, args []value) value {
-	// Signature: func (reflect.Value) bool
-	return rV2V(args[0]).(bool)
 }
 
 func ext۰reflect۰Value۰CanAddr(fr *frame, args []value) value {
@@ -434,6 +454,87 @@ func ext۰reflect۰Value۰IsNil(fr *frame, args []value) value {
 	}
 }
 
+func ext۰reflect۰Value۰CanInt(fr *frame, args []value) value {
+	switch reflectKind(rV2T(args[0]).t) {
+	case reflect.Int, reflect.Int8, reflect.Int16, reflect.Int32, reflect.Int64:
+		return true
+	}
+	return false
+}
+
+func ext۰reflect۰Value۰CanFloat(fr *frame, args []value) value {
+	switch reflectKind(rV2T(args[0]).t) {
+	case reflect.Float32, reflect.Float64:
+		return true
+	}
+	return false
+}
+
+func ext۰reflect۰Value۰Bool(fr *frame, args []value) value {
+	if k := reflectKind(rV2T(args[0]).t); k != reflect.Bool {
+		panic(reflectValueError("reflect.Value.Bool", k))
+	}
+	return rV2V(args[0])
+}
+
+func ext۰reflect۰rtype۰Key(fr *frame, args []value) value {
+	// Signature: func (t reflect.rtype) reflect.Type
+	m, ok := args[0].(rtype).t.Underlying().(*types.Map)
+	if !ok {
+		panic(targetPanic{iface{errorType, "reflect: Key of non-map type " + args[0].(rtype).t.String()}})
+	}
+	return makeReflectType(rtype{m.Key()})
+}
+
+// reflectMapIter is the engine's *reflect.MapIter.
+type reflectMapIter struct {
+	kt, vt   types.Type
+	it       *smapIter
+	key, val value
+	valid    bool
+}
+
+func ext۰reflect۰Value۰MapRange(fr *frame, args []value) value {
+	t := rV2T(args[0]).t
+	if k := reflectKind(t); k != reflect.Map {
+		panic(reflectValueError("reflect.Value.MapRange", k))
+	}
+	mt := t.Underlying().(*types.Map)
+	m, _ := rV2V(args[0]).(*smap)
+	var v value = &reflectMapIter{kt: mt.Key(), vt: mt.Elem(), it: m.iter(fr.i)}
+	return &v
+}
+
+func mapIterOf(v value) *reflectMapIter { return (*v.(*value)).(*reflectMapIter) }
+
+func ext۰reflect۰MapIter۰Next(fr *frame, args []value) value {
+	mi := mapIterOf(args[0])
+	t := mi.it.next()
+	mi.valid = t[0].(bool)
+	if mi.valid {
+		mi.key, mi.val = t[1], t[2]
+	}
+	return mi.valid
+}
+
+func ext۰reflect۰MapIter۰Key(fr *frame, args []value) value {
+	mi := mapIterOf(args[0])
+	if !mi.valid {
+		panic(targetPanic{iface{errorType, "MapIter.Key called before Next"}})
+	}
+	return makeReflectValue(mi.kt, mi.key)
+}
+
+func ext۰reflect۰MapIter۰Value(fr *frame, args []value) value {
+	mi := mapIterOf(args[0])
+	if !mi.valid {
+		panic(targetPanic{iface{errorType, "MapIter.Value called before Next"}})
+	}
+	// an interface-typed element keeps its static type (Kind Interface);
+	// Interface() then unwraps it
+	return makeReflectValue(mi.vt, mi.val)
+}
+
 func ext۰reflect۰Value۰IsValid(fr *frame, args []value) value {
 	// Signature: func (reflect.Value) bool
 	return rV2V(args[0]) != nil
@@ -447,7 +548,17 @@ func ext۰reflect۰Value۰Set(fr *frame, args []value) value {
 func ext۰reflect۰valueInterface(fr *frame, args []value) value {
 	// Signature: func (v reflect.Value, safe bool) interface{}
 	v := args[0].(structure)
-	return iface{rV2T(v).t, rV2V(v)}
+	t := rV2T(v).t
+	if t != nil {
+		if _, isIface := t.Underlying().(*types.Interface); isIface {
+			// a Value of interface type (map/slice element, struct field):
+			// Interface() yields the dynamic value, not an interface in an interface
+			if inner, ok := rV2V(v).(iface); ok {
+				return inner
+			}
+		}
+	}
+	return iface{t, rV2V(v)}
 }
 
 func ext۰reflect۰error۰Error(fr *frame, args []value) value {
@@ -509,6 +620,7 @@ func initReflect(i *Program) {
 		"Field":     newMethod(i.reflectPackage, rtypeType, "Field"),
 		"In":        newMethod(i.reflectPackage, rtypeType, "In"),
 		"Kind":      newMethod(i.reflectPackage, rtypeType, "Kind"),
+		"Key":       newMethod(i.reflectPackage, rtypeType, "Key"),
 		"NumField":  newMethod(i.reflectPackage, rtypeType, "NumField"),
 		"NumIn":     newMethod(i.reflectPackage, rtypeType, "NumIn"),
 		"NumMethod": newMethod(i.reflectPackage, rtypeType, "NumMethod"),
